@@ -211,3 +211,34 @@ void h_stream_putc(void) {
     (void)r;
 }
 #endif
+
+/* ------------------------------------------------------------------ point lists (writer side, bounded) */
+#ifdef VF_ENTRY_h_point_list_write
+#define PL_N 4
+int64_t IN_ptx[PL_N], IN_pty[PL_N];
+uint64_t IN_npts; bool IN_closed;
+static IntVec2 c19_pts[PL_N];
+static Array_IntVec2 c19_points;
+void h_point_list_write(void) {
+    OasisStream s; OasisStream *out = &s;
+    c19_env(); c19_out_stream(out);
+    VF_IN(u64, IN_npts); VF_IN(bool, IN_closed); VF_IN_ARR(IN_ptx); VF_IN_ARR(IN_pty);
+    VF_ASSUME(IN_npts <= PL_N);
+    for (int k = 0; k < PL_N; k++) {
+        /* scaled layout coordinates: well inside 62 bits, so that differences cannot overflow */
+        VF_ASSUME(IN_ptx[k] > -(1LL << 61) && IN_ptx[k] < (1LL << 61) && IN_pty[k] > -(1LL << 61) && IN_pty[k] < (1LL << 61));
+        c19_pts[k].x = IN_ptx[k]; c19_pts[k].y = IN_pty[k];
+    }
+    c19_points.count = IN_npts; c19_points.capacity = PL_N; c19_points.items = c19_pts;
+    oasis_write_point_list__OasisStream_ref_Array_IntVec2_ref_bool(out, &c19_points, IN_closed);
+    /* (a) the deltas are computed in place; the reference point and the count are untouched */
+    VF_ASSERT(c19_points.count == IN_npts && c19_points.items == c19_pts, "the array header is untouched");
+    if (IN_npts >= 1) VF_ASSERT(c19_pts[0].x == IN_ptx[0] && c19_pts[0].y == IN_pty[0], "the reference point is untouched");
+    for (int k = 1; k < PL_N; k++) if ((uint64_t)k < IN_npts)
+        VF_ASSERT(c19_pts[k].x == IN_ptx[k] - IN_ptx[k - 1] && c19_pts[k].y == IN_pty[k] - IN_pty[k - 1], "entry k holds the delta to its predecessor");
+    /* (b) "the chosen list type admits every delta" is checked by CBMC at every call of the replaced
+     * oasis_write_2delta / oasis_write_3delta / oasis_write_integer: their requires clauses (the asserts of
+     * the source) are obligations of this run */
+    VF_REACHED();
+}
+#endif
